@@ -279,7 +279,9 @@ Init == /\ op \in Ops
         /\ src \in (IF IdentSrc THEN {[j \in 1..m |-> j - 1] : m \in 0..MaxLen} ELSE UNION {[1..m -> Vals] : m \in 0..MaxLen})
         /\ (op = "getitem_int") => (0 - Len(src) <= par.n /\ par.n < Len(src))   \* in-range indices only
         /\ term \in Terms
-        /\ dsp \in (IF Disposes THEN 0..(Len(src) + 1) ELSE {}) \cup {NEVER}
+        \* the dispose instant ranges over the instants of the run (for a source that never terminates the last
+        \* instant is that of its last element)
+        /\ dsp \in (IF Disposes THEN 0..(Len(src) + (IF term = "U" THEN 0 ELSE 1)) ELSE {}) \cup {NEVER}
         /\ LET r == Sub(op, par) IN
            /\ st = r.st /\ out = Stamp(r.em, 0)
            /\ done = r.fin
